@@ -94,3 +94,14 @@ Theorem C08_reference_history_example :
      /\ build_sharded 8 HashMurmur3 (mrun demo_ops) = Ok (serialize_node 8 HashMurmur3 (pad_len 8) (BShard t)).
 Proof. exact demo_history. Qed.
 Print Assumptions C08_reference_history_example.
+
+(* the bridge, at full strength: for every permitted fanout, every 8-byte hash and EVERY history of Sets and Removes the reference
+   implementation went through, BuildUnixFSShardedDirectory SUCCEEDS on the final entry set and returns exactly the root block and
+   cumulative size the reference wrote - the same link and size from either implementation, however the reference got there *)
+Theorem C08_builder_equals_reference_after_any_history : forall size lg, permitted size lg ->
+  forall H : bytes -> bytes, (forall k, wf_bytes (H k) = true) -> (forall k, length (H k) = 8%nat) ->
+  forall fuel ops t, Forall (hop_ok H) ops -> hrun lg fuel ops = Ok t ->
+  Forall (entry_ok H) (mrun ops) /\ NoDup (map e_name (mrun ops)) /\
+  build_sharded size HashMurmur3 (mrun ops) = Ok (serialize_node size HashMurmur3 (pad_len size) (BShard t)).
+Proof. exact ref_history_is_the_built_directory. Qed.
+Print Assumptions C08_builder_equals_reference_after_any_history.
